@@ -438,6 +438,68 @@ def wl_default_sharing(run, rng, idx):
     run_history(run, "default_args", A, MA, opsA, B, MB, opsB)
 
 
+def wl_shared_source(run, rng, idx):
+    """two automata built from the *same* source dictionary (or from another
+    automaton's own views): editing one must not change the other nor the
+    caller's dictionary (seeded change C09-3: label lists aliased with the
+    caller's dict on the target->labels route)."""
+    from geometry_tools.automata import fsa as fsamod
+    mon = run.monitor("history-model")
+    nv = int(rng.integers(2, 6))
+    labels = ["a", "b", "c"][:int(rng.integers(1, 4))]
+    d = {v: {} for v in range(nv)}
+    for v in range(nv):
+        for l in labels:
+            if rng.random() < 0.6:
+                d[v][l] = int(rng.integers(0, nv))
+    td = {v: {} for v in range(nv)}
+    for v in range(nv):
+        for l, w in d[v].items():
+            td[v].setdefault(w, []).append(l)
+    route = ["label", "target", "from-graph_dict-view", "from-out_dict-view"][idx % 4]
+    M = fsa_model.Model.from_label_dict(d, [0])
+    if route == "label":
+        src = d
+        A = fsamod.FSA(src, start_vertices=[0])
+        B = fsamod.FSA(src, start_vertices=[0])
+    elif route == "target":
+        src = td
+        A = fsamod.FSA(src, start_vertices=[0], graph_dict=False)
+        B = fsamod.FSA(src, start_vertices=[0], graph_dict=False)
+    elif route == "from-graph_dict-view":
+        B = fsamod.FSA(d, start_vertices=[0])
+        src = B.graph_dict
+        A = fsamod.FSA(src, start_vertices=[0])
+    else:
+        B = fsamod.FSA(td, start_vertices=[0], graph_dict=False)
+        src = B.out_dict
+        A = fsamod.FSA(src, start_vertices=[0], graph_dict=False)
+    snap = copy.deepcopy({k: dict(v) for k, v in src.items()})
+    MA, MB = M.copy(), M.copy()
+    ops = random_ops(rng, labels, int(rng.integers(3, 15)), nv=nv + 1)
+    hist = [list(o) for o in ops]
+    _state["history"] = {"route": "shared-source:" + route, "ops": hist}
+    run.current_case = _state["history"]
+    for k, op in enumerate(ops):
+        A, MA, status = apply_op(op, A, MA)
+        if status != "ok":
+            mon.skip(status)
+            continue
+        if not compare(run, A, MA, k, hist):
+            return
+        # the sibling automaton and the source dictionary are untouched
+        if not compare(run, B, MB, k, [["sibling-of-shared-source", route]] * (k + 1)):
+            return
+        now = {k2: dict(v) for k2, v in src.items()}
+        if route in ("label", "target") and now != snap:
+            mon.fail("model/caller-dict-mutated/route:%s" % route,
+                     "editing an automaton changed the dictionary it was built from: %r -> %r"
+                     % (snap, now), case=_state["history"])
+            return
+    run.note_class("shared-source", route, nv, len(labels))
+    _state["history"] = None
+
+
 # ---------------------------------------------------------------------------
 # kbmag text
 
@@ -649,6 +711,7 @@ WORKLOADS = [
              thorough=(DENSE_TOTAL + 255) // 256),
     Workload("random-histories", wl_random, quick=400, thorough=6000),
     Workload("default-sharing", wl_default_sharing, quick=40, thorough=400),
+    Workload("shared-source", wl_shared_source, quick=200, thorough=3000),
     Workload("kbmag-text", wl_kbmag, quick=300, thorough=5000),
     Workload("builtin-files", wl_builtin, quick=18, thorough=180),
     Workload("routes", wl_routes, quick=150, thorough=2000),
